@@ -4,7 +4,9 @@ import logging
 from vlib import basic
 
 LEVEL = 'proof'
-RULE = ('one case = one direct-mode statement of a history executed on a real Session (video=vga): PRINT A$ / PRINT A$; '
+RULE = ('one case = one direct-mode statement of a history executed on a real Session, configurations video=vga and '
+        '(syntax/video) tandy and pcjr, where VIEW PRINT may include row 25 (windows [t,25], enough lines to scroll '
+        'them, LOCATE 25, mode changes that keep them, KEY ON/OFF): PRINT A$ / PRINT A$; '
         'with A$ set through Session.set_variable (plain text of boundary lengths W-1, W, W+1, 2W, 255; control codes '
         'BEL TAB LF VT FF CR 28..31; arbitrary bytes), LOCATE (valid, boundary, out of range, omitted arguments), CLS, '
         'VIEW PRINT (valid, unset, invalid), WIDTH 40/80, SCREEN 0/1/2/7/8/9, S%=SCREEN(r,c); after every statement '
@@ -26,15 +28,23 @@ TRUSTED_BASE = ['model PcbV.Model.TextScreen is a hand transcription of textscre
                 'display.py (SCREEN, WIDTH, CLS as far as they reset the text screen)',
                 'constants (mode widths, WIDTH transitions, height 25, error message) regenerated from /repo '
                 '(gen/tables_c36.py)']
-ASSUMPTIONS = ['LOCATE is modelled with its row and column arguments only (cursor visibility/shape arguments: one fixed probe, '
+ASSUMPTIONS = ['the history theorems (invariant Inv) are about adapters whose VIEW PRINT stops at row 24; the Tandy/PCjr '
+               'configuration is run on the model (histt) and compared step by step, the reference typewriter and its '
+               'closed form cover windows up to row 25, KEY ON/OFF histories are checked by the oracle only',
+               'LOCATE is modelled with its row and column arguments only (cursor visibility/shape arguments: one fixed probe, '
                'known finding C36-F1)',
-               'video adapter vga, codepage 437 (no DBCS), KEY OFF (bottom bar hidden), one page, no graphics VIEW',
+               'video adapters vga, tandy, pcjr; codepage 437 (no DBCS); KEY OFF in the model (bottom bar hidden), one page, '
+               'no graphics VIEW',
                'attributes, pixels and the interface signals are not compared (C35 covers the picture)',
                'the interactive line editor (insert/delete/line feed with scroll_down) is outside the model',
                'row 25 (reachable with LOCATE 25,c) is compared with the model only; the landing/typewriter oracles '
                'apply while the cursor is inside the scroll window']
 
 H = 25
+# configurations: the video adapter decides whether VIEW PRINT may include row 25 (TextScreen._tandytext)
+CONFIGS = {'vga': dict(video='vga'), 'tandy': dict(video='tandy', syntax='tandy'),
+           'pcjr': dict(video='pcjr', syntax='pcjr')}
+ROW25 = 'window-to-row-25:no-wrap-on-row-25'
 CONTROL = (7, 9, 10, 11, 12, 13, 28, 29, 30, 31)
 GRAPHICS_WIDTH = {1: 40, 2: 80, 7: 40, 8: 80, 9: 80}
 TO_WIDTH = {1: {40: 1, 80: 2}, 2: {40: 1, 80: 2}, 7: {40: 7, 80: 8}, 8: {40: 7, 80: 8}, 9: {40: 1, 80: 9}}
@@ -59,6 +69,8 @@ def op_word(op):
         return 's%d' % op[1]
     if k == 'query':
         return 'q%d,%d' % (op[1], op[2])
+    if k == 'key':
+        return 'k%d' % int(op[1])
     raise ValueError(op)
 
 
@@ -82,6 +94,8 @@ def op_basic(op):
         return b'SCREEN %d' % op[1]
     if k == 'query':
         return b'S%%=SCREEN(%d,%d)' % (op[1], op[2])
+    if k == 'key':
+        return b'KEY ON' if op[1] else b'KEY OFF'
     raise ValueError(op)
 
 
@@ -98,9 +112,9 @@ def show_screen(rows):
 # the real implementation
 
 class Impl(object):
-    def __init__(self):
+    def __init__(self, cfg='vga'):
         logging.disable(logging.CRITICAL)
-        self.s = basic.new_session(video='vga')
+        self.s = basic.new_session(**CONFIGS[cfg])
 
     def close(self):
         try:
@@ -147,6 +161,8 @@ class Typewriter(object):
     def __init__(self, rows, w, top, bottom, r, c):
         self.rows = [bytearray(x) for x in rows]
         self.w, self.top, self.bottom, self.r, self.c = w, top, bottom, r, c
+        # set when a wrap / line break was carried out from the last row of the SCREEN (row 25)
+        self.last_row_wrap = False
 
     def copy(self):
         return Typewriter(self.rows, self.w, self.top, self.bottom, self.r, self.c)
@@ -159,18 +175,22 @@ class Typewriter(object):
             del self.rows[self.top - 1]
             self.rows.insert(self.bottom - 1, bytearray(b' ' * self.w))
 
-    def realise(self):
+    def realise(self, typing=False):
         if self.c == self.w + 1:
+            if typing and self.r == H:
+                self.last_row_wrap = True
             self._next_row()
 
     def put(self, ch):
-        self.realise()
+        self.realise(typing=True)
         self.rows[self.r - 1][self.c - 1] = ch
         self.c += 1
 
     def print_(self, text, nl):
         if text and self.c != 1 and self.c - 1 + len(text) > self.w:
             # the string does not fit in the rest of the line: it starts on the next line
+            if self.r == H:
+                self.last_row_wrap = True
             self._next_row()
         for ch in text:
             self.put(ch)
@@ -194,8 +214,12 @@ def is_plain(text):
 class Oracle(object):
     """Checks written from the property statement.  Tracks mode/width/window by itself."""
 
-    def __init__(self, ctx, hist):
-        self.ctx, self.hist = ctx, hist
+    def __init__(self, ctx, hist, cfg='vga'):
+        self.ctx, self.hist, self.cfg = ctx, hist, cfg
+        # Tandy/PCjr: VIEW PRINT may end on row 25 while the key bar is off, and such a window survives a
+        # mode change as VIEW PRINT 1 TO 25
+        self.tandy = cfg in ('tandy', 'pcjr')
+        self.bar = False
         self.mode, self.w = 0, 80
         self.first_switch = True
         self.top, self.bottom, self.active = 1, 24, False
@@ -204,7 +228,7 @@ class Oracle(object):
 
     def fail(self, key, i, what):
         self.failed.append(key)
-        self.ctx.fail(key, {'ops': [list(o) for o in self.hist[:i + 1]]},
+        self.ctx.fail(key, {'cfg': self.cfg, 'ops': [list(o) for o in self.hist[:i + 1]]},
                       'step %d %s: %s' % (i, op_word(self.hist[i]), what))
 
     def _switch(self, m, w):
@@ -214,8 +238,11 @@ class Oracle(object):
         self.first_switch = False
         if changed:
             self.mode, self.w = m, w
-            self.top, self.bottom, self.active = 1, 24, False
-            self.tw = Typewriter([b' ' * w] * H, w, 1, 24, 1, 1)
+            if self.bottom == H:
+                self.top, self.bottom, self.active = 1, H, True
+            else:
+                self.top, self.bottom, self.active = 1, 24, False
+            self.tw = None if self.bar else Typewriter([b' ' * w] * H, w, 1, self.bottom, 1, 1)
         return changed
 
     def step(self, i, op, before, after, err, val):
@@ -248,12 +275,15 @@ class Oracle(object):
                 # a character goes to the reported cell and the cursor advances by one
                 ctx.count('oracle:landing')
                 if rows1[r0 - 1][c0 - 1] != text[0] or (r1, c1) != (r0, c0 + 1):
-                    self.fail('char-not-at-reported-cell', i,
+                    self.fail(ROW25 if (r0 == H and self.bottom == H) else 'char-not-at-reported-cell', i,
                               'CSRLIN,POS was %d,%d; %r is not there / cursor now %d,%d' % (r0, c0, text, r1, c1))
             if tw is not None and is_plain(text) and err == '0':
+                tw.last_row_wrap = False
                 tw.print_(text, nl)
                 ctx.count('oracle:typewriter-print')
-                self._check_tw(i, after)
+                if self.bottom == H:
+                    ctx.count('oracle:typewriter-print-window-to-25')
+                self._check_tw(i, after, ROW25 if (tw.last_row_wrap and self.bottom == H) else None)
             else:
                 self.tw = None
         elif k == 'locate':
@@ -261,6 +291,9 @@ class Oracle(object):
             rr = r0 if r is None else r
             cc = c0 if c is None else c
             lo, hi = (self.top, self.bottom) if self.active else (1, H)
+            if self.bar:
+                # the key line is shown on row 25: LOCATE 25 is refused
+                hi = min(hi, H - 1)
             valid = lo <= rr <= hi and 1 <= cc <= self.w
             if r is None or c is None:
                 # an omitted coordinate keeps the current one (whose value in the pending-wrap state is the
@@ -288,7 +321,7 @@ class Oracle(object):
                     self.fail(key, i, 'after LOCATE %d,%d: CSRLIN=%d POS=%d' % (r, c, r1, c1))
                 elif rows1 != rows0:
                     self.fail('locate-changed-text', i, 'screen text changed')
-                if tw is not None and err == '0' and r <= self.bottom and c < self.w:
+                if tw is not None and err == '0' and r <= self.bottom and r < H and c < self.w:
                     tw.r, tw.c = r, c
                     self._check_tw(i, after)
                 else:
@@ -305,6 +338,8 @@ class Oracle(object):
             top, bottom = (self.top, self.bottom) if self.active else (1, H)
             for r in range(1, H + 1):
                 exp = b' ' * self.w if top <= r <= bottom else rows0[r - 1]
+                if r == H and self.bar:
+                    exp = rows0[r - 1]      # the key line is redrawn
                 if rows1[r - 1] != exp:
                     self.fail('cls-content', i, 'row %d is %r after CLS (window %d..%d)' % (r, rows1[r - 1].rstrip(), top, bottom))
                     break
@@ -318,9 +353,13 @@ class Oracle(object):
                     self.top, self.bottom, self.active = 1, 24, False
                     if tw is not None:
                         tw.top, tw.bottom = 1, 24
+                        if tw.r > 24:
+                            # Tandy/PCjr: the cursor was on row 25 of a window that is now gone; it is outside the
+                            # scroll area without being parked there - no reference for what output does next
+                            self.tw = tw = None
             else:
                 t, b = op[1], op[2]
-                ok = 1 <= t <= b <= 24
+                ok = 1 <= t <= b <= (H if self.tandy and not self.bar else 24)
                 if ok and err == '0':
                     self.top, self.bottom, self.active = t, b, True
                     if (r1, c1) != (t, 1):
@@ -365,10 +404,32 @@ class Oracle(object):
                 if w1 != self.w:
                     self.fail('width-not-as-requested', i, 'screen has %d columns, expected %d' % (w1, self.w))
                 elif changed:
-                    if any(r.strip(b' ') for r in rows1) or (r1, c1) != (1, 1):
+                    if any(r.strip(b' ') for r in rows1[:H - 1 if self.bar else H]) or (r1, c1) != (1, 1):
                         self.fail('mode-switch-not-cleared', i, 'cursor %d,%d, text %s' % (r1, c1, show_screen(rows1)))
                 elif rows1 != rows0 or (r1, c1) != (r0, c0):
                     self.fail('noop-switch-changed-screen', i, 'cursor %d,%d -> %d,%d' % (r0, c0, r1, c1))
+        elif k == 'key':
+            want = bool(op[1])
+            # Tandy/PCjr: KEY ON is refused while the scroll window includes row 25
+            ok = not (want and self.bottom == H)
+            if ok != (err == '0'):
+                self.fail('key-on-off-error', i, '%s: error %s (window %d..%d)' % (op_basic(op), err, self.top, self.bottom))
+            if err == '0':
+                if rows1[:H - 1] != rows0[:H - 1] or (r1, c1) != (r0, c0):
+                    self.fail('key-changed-screen', i, 'rows 1..24 or the cursor changed')
+                if want != self.bar:
+                    if want and not rows1[H - 1].strip(b' '):
+                        self.fail('key-on-no-key-line', i, 'row 25 is blank after KEY ON')
+                    if not want and rows1[H - 1].strip(b' '):
+                        self.fail('key-off-key-line-left', i, 'row 25 is %r after KEY OFF' % rows1[H - 1].rstrip())
+                elif rows1[H - 1] != rows0[H - 1]:
+                    self.fail('key-changed-screen', i, 'row 25 changed although the key line was already %s' % ('on' if want else 'off'))
+                self.bar = want
+                if tw is not None:
+                    tw.rows[H - 1] = bytearray(rows1[H - 1])
+                    self._check_tw(i, after)
+            else:
+                self.tw = None
         elif k == 'query':
             r, c = op[1], op[2]
             ok = 0 <= r <= H and 0 <= c <= self.w and (r, c) != (0, 0)
@@ -395,7 +456,7 @@ class Oracle(object):
             if err != '0':
                 self.tw = None
 
-    def _check_tw(self, i, after):
+    def _check_tw(self, i, after, finding_key=None):
         tw = self.tw
         r1, c1, rows1 = after
         if tw.c == tw.w + 1 and tw.r == tw.bottom and rows1 != tw.screen():
@@ -408,11 +469,11 @@ class Oracle(object):
         exp = tw.screen()
         if rows1 != exp:
             bad = [r for r in range(H) if rows1[r] != exp[r]][0]
-            self.fail('typewriter-text', i, 'row %d is %r, reference typewriter has %r (width %d, window %d..%d)'
+            self.fail(finding_key or 'typewriter-text', i, 'row %d is %r, reference typewriter has %r (width %d, window %d..%d)'
                       % (bad + 1, rows1[bad].rstrip(), exp[bad].rstrip(), tw.w, tw.top, tw.bottom))
             self.tw = None
         elif (r1, c1) != tw.reported():
-            self.fail('typewriter-cursor', i, 'CSRLIN,POS = %d,%d, reference typewriter is at %s (pending wrap: %s)'
+            self.fail(finding_key or 'typewriter-cursor', i, 'CSRLIN,POS = %d,%d, reference typewriter is at %s (pending wrap: %s)'
                       % (r1, c1, tw.reported(), tw.c == tw.w + 1))
             self.tw = None
 
@@ -466,15 +527,130 @@ def gen_locate(rng, w, top, bottom):
     return ('locate', None, None)
 
 
-def gen_history(rng, quick):
+def gen_window25(rng, quick, cfg):
+    """Tandy/PCjr: histories around a scroll window that ends on row 25 (text above it, enough lines to scroll it
+    several times, LOCATE into the window and onto row 25, mode changes that keep it as 1..25, unsetting it)"""
+    ops = []
+    w = 80
+    if rng.random() < 0.4:
+        m = rng.choice([0, 1, 2])
+        ops.append(('screen', m))
+        w = w if m == 0 else GRAPHICS_WIDTH[m]
+    if rng.random() < 0.3:
+        w2 = rng.choice([40, 80])
+        ops.append(('width', w2))
+        w = w2
+    top = rng.choice([1, 2, 5, 10, 20, 22, 23, 24, 25, rng.randrange(1, 26)])
+    for r in sorted(set(rng.randrange(1, 26) for _ in range(rng.randrange(0, 4)))):
+        ops.append(('locate', r, rng.randrange(1, w // 2)))
+        ops.append(('print', gen_text(rng, w, 'plain')[:rng.randrange(1, w // 2)] or [70], False))
+    ops.append(('view', top, 25))
+    if rng.random() < 0.7:
+        ops.append(('cls',))
+    n = rng.randrange(8, 30 if quick else 70)
+    letters = b'ABCDEFGHIJKLMNOPQRSTUVWXYZ0123456789'
+    k = 0
+    while len(ops) < n + 6:
+        x = rng.random()
+        k += 1
+        if x < 0.62:
+            # short lines, each ended by a newline: these scroll the window one row per line
+            ops.append(('print', [letters[k % len(letters)]] * rng.randrange(1, min(w - 1, 12)), True))
+        elif x < 0.72:
+            ops.append(('print', gen_text(rng, w, 'plain')[:rng.choice([w - 1, w, w + 1, 2 * w, 3])], rng.random() < 0.5))
+        elif x < 0.78:
+            ops.append(('locate', rng.choice([top, 25, 25, max(top, 24), rng.randrange(top, 26)]), rng.choice([1, 1, 2, w - 1, w])))
+        elif x < 0.82:
+            ops.append(('query', rng.randrange(top, 26), rng.randrange(1, w + 1)))
+        elif x < 0.86:
+            ops.append(('cls',))
+        elif x < 0.9:
+            m = rng.choice([0, 1, 2])
+            ops.append(('screen', m))
+            nw = w if m == 0 else GRAPHICS_WIDTH[m]
+            if nw != w or rng.random() < 0.3:
+                top = 1
+            w = nw
+        elif x < 0.93:
+            top = rng.randrange(1, 26)
+            ops.append(('view', top, 25))
+        elif x < 0.95:
+            ops.append(('view', None, None))
+            ops.append(('print', [letters[k % len(letters)]] * 3, True))
+            top = rng.randrange(1, 26)
+            ops.append(('view', top, 25))
+        else:
+            ops.append(('print', [rng.choice([13, 10, 31, 30, 11, 12])], rng.random() < 0.5))
+    return ops
+
+
+def gen_keybar(rng, quick, cfg):
+    """KEY ON / KEY OFF against LOCATE 25, VIEW PRINT (to 25 on Tandy/PCjr), CLS, mode changes and scrolling output;
+    run on the implementation and the oracle only (the key line is outside the model)"""
+    ops = []
+    w = 80
+    hi = 25 if cfg != 'vga' else 24
+    on = False
+    n = rng.randrange(6, 22 if quick else 50)
+    while len(ops) < n:
+        x = rng.random()
+        if x < 0.22:
+            on = not on if rng.random() < 0.8 else on
+            ops.append(('key', on))
+        elif x < 0.4:
+            t0 = rng.randrange(1, hi + 1)
+            ops.append(('view', t0, rng.choice([hi, hi, 24, rng.randrange(t0, hi + 1)])))
+        elif x < 0.45:
+            ops.append(('view', None, None))
+        elif x < 0.6:
+            ops.append(('locate', rng.choice([25, 25, 24, 1, rng.randrange(1, 26)]), rng.choice([1, w, rng.randrange(1, w + 1)])))
+        elif x < 0.68:
+            ops.append(('cls',))
+        elif x < 0.74:
+            m = rng.choice([0, 1, 2])
+            ops.append(('screen', m))
+            w = w if m == 0 else GRAPHICS_WIDTH[m]
+        else:
+            ops.append(('print', gen_text(rng, w, 'plain')[:rng.choice([3, 10, w, w + 5])], rng.random() < 0.7))
+    return ops
+
+
+def fixed_window25_histories():
+    """deterministic family for the Tandy/PCjr configurations: for several tops t, text on the rows above,
+    VIEW PRINT t TO 25, and enough short lines to scroll the window three times; then a long line"""
+    hs = []
+    for t0 in (1, 2, 10, 23, 24, 25):
+        ops = []
+        for r in range(1, min(t0, 4)):
+            ops += [('locate', r, 1), ('print', list(b'above %d' % r), False)]
+        ops += [('view', t0, 25), ('cls',)]
+        for k in range(25 - t0 + 1 + 3):
+            ops.append(('print', list(b'line %02d' % k), True))
+        ops += [('query', 25, 1), ('locate', 25, 1), ('print', [81], True), ('print', [82], True),
+                ('screen', 1), ('print', list(b'after mode change'), True), ('view', None, None)]
+        hs.append(ops)
+    return hs
+
+
+def gen_history(rng, quick, cfg='vga'):
     """a history is a list of ops; the bookkeeping here (width, window) only steers the generator"""
     ops = []
     w, mode, top, bottom = 80, 0, 1, 24
+    modes = [0, 1, 2, 7, 8, 9] if cfg == 'vga' else [0, 1, 2]
+    maxb = 24 if cfg == 'vga' else 25
+    if cfg != 'vga':
+        s = rng.random()
+        if s < 0.45:
+            return gen_window25(rng, quick, cfg)
+        if s < 0.55:
+            return gen_keybar(rng, quick, cfg)
+    elif rng.random() < 0.04:
+        return gen_keybar(rng, quick, cfg)
     style = rng.choice(['typewriter', 'typewriter', 'mixed', 'mixed', 'control', 'edge'])
     n = rng.randrange(6, 26 if quick else 60)
     # configuration prefix
     if rng.random() < 0.7:
-        m = rng.choice([0, 0, 0, 1, 2, 7, 8, 9])
+        m = rng.choice([0, 0] + modes)
         ops.append(('screen', m))
         mode = m
         w = w if m == 0 else GRAPHICS_WIDTH[m]
@@ -486,7 +662,7 @@ def gen_history(rng, quick):
                 w = ww if mode == 0 else GRAPHICS_WIDTH[mode]
     if rng.random() < 0.6:
         top = rng.choice([1, 1, 2, 5, 10, 23, 24, rng.randrange(1, 25)])
-        bottom = rng.choice([top, top, min(24, top + 1), min(24, top + 2), 24, rng.randrange(top, 25)])
+        bottom = rng.choice([top, top, min(24, top + 1), min(24, top + 2), maxb, rng.randrange(top, maxb + 1)])
         ops.append(('view', top, bottom))
     if style == 'typewriter':
         if rng.random() < 0.5:
@@ -561,7 +737,7 @@ def gen_history(rng, quick):
                 top, bottom = 1, 24
             elif y < 0.8:
                 top = rng.randrange(1, 25)
-                bottom = rng.choice([top, 24, rng.randrange(top, 25)])
+                bottom = rng.choice([top, maxb, rng.randrange(top, maxb + 1)])
                 ops.append(('view', top, bottom))
             else:
                 ops.append(('view', rng.choice([0, 1, 5, 24, 25]), rng.choice([0, 3, 24, 25, 26])))
@@ -573,7 +749,7 @@ def gen_history(rng, quick):
                 w = ww if mode == 0 else GRAPHICS_WIDTH[mode]
                 top, bottom = 1, 24
         elif x < 0.92:
-            m = rng.choice([0, 1, 2, 7, 8, 9])
+            m = rng.choice(modes)
             ops.append(('screen', m))
             nw = w if m == 0 else GRAPHICS_WIDTH[m]
             if (m, nw) != (mode, w):
@@ -588,18 +764,19 @@ def gen_history(rng, quick):
 # ---------------------------------------------------------------------------------------------
 # running
 
-def run_history(ctx, hist, compare=True):
+def run_history(ctx, hist, compare=True, cfg='vga'):
     """execute a history on a fresh Session; returns (per-step strings, list of failed oracle keys)"""
-    impl = Impl()
-    oracle = Oracle(ctx, hist)
+    impl = Impl(cfg)
+    oracle = Oracle(ctx, hist, cfg)
     steps = []
     try:
         before = impl.observe()
         for i, op in enumerate(hist):
             err, val = impl.step(op)
             after = impl.observe()
-            ctx.case((op_word(op), before[0], before[1], len(before[2][0]), oracle.top, oracle.bottom))
+            ctx.case((cfg, op_word(op), before[0], before[1], len(before[2][0]), oracle.top, oracle.bottom))
             ctx.count('op:' + op[0])
+            ctx.count('cfg:' + cfg)
             if err != '0':
                 ctx.count('err:' + err)
             if after[1] == len(after[2][0]) or (after[1] == 1 and before[1] >= len(before[2][0]) - 1):
@@ -615,21 +792,25 @@ def run_history(ctx, hist, compare=True):
 
 
 def compare_histories(ctx, hists, impl_steps):
-    lines = ['hist ' + (';'.join(op_word(o) for o in h) or '-') for h in hists]
+    """hists: list of (cfg, ops).  Histories with KEY ON/OFF are outside the model (oracle only)."""
+    sel = [(c, h, s) for (c, h), s in zip(hists, impl_steps) if not any(o[0] == 'key' for o in h)]
+    lines = [('histt ' if c in ('tandy', 'pcjr') else 'hist ') + (';'.join(op_word(o) for o in h) or '-')
+             for c, h, _ in sel]
     mouts = ctx.model(lines)
     if mouts is None:
         return
-    for h, steps, line, m in zip(hists, impl_steps, lines, mouts):
+    for (c, h, steps), line, m in zip(sel, lines, mouts):
         msteps = m.split(' ')[1:] if m.startswith('ok') else [m]
         if msteps == steps:
             continue
         for i, (a, b) in enumerate(zip(steps + ['<missing>'] * len(msteps), msteps + ['<missing>'] * len(steps))):
             if a != b:
-                ctx.disagree({'label': 'history', 'ops': [op_word(o) for o in h[:i + 1]], 'step': i}, a[:600], b[:600])
+                ctx.disagree({'label': 'history', 'cfg': c, 'ops': [op_word(o) for o in h[:i + 1]], 'step': i},
+                             a[:600], b[:600])
                 break
 
 
-def minimise(ctx, hist, key):
+def minimise(ctx, hist, key, cfg='vga'):
     """greedy shrinking of a failing history (same oracle key must still fail)"""
     sub = QuietCtx(ctx)
     cur = list(hist)
@@ -644,7 +825,7 @@ def minimise(ctx, hist, key):
             cand = cur[:j] + cur[j + 1:]
             sub.failures = []
             try:
-                _, failed = run_history(sub, cand, compare=False)
+                _, failed = run_history(sub, cand, compare=False, cfg=cfg)
             except Exception:   # noqa
                 continue
             if key in failed:
@@ -739,29 +920,39 @@ def probe_locate_cursor_argument(ctx):
 def run(ctx):
     rng = ctx.rng
     probe_locate_cursor_argument(ctx)
-    n = 400 if ctx.quick else 2000
-    hists = [list(h) for h in FIXED_HISTORIES] + [gen_history(rng, ctx.quick) for _ in range(n)]
+    n = 300 if ctx.quick else 1600
+    nt = 26 if ctx.quick else 400
+    hists = [('vga', list(h)) for h in FIXED_HISTORIES]
+    fam = fixed_window25_histories()
+    # the deterministic row-25 family: all of it in the thorough tier, a rotating part of it in the quick tier
+    pick = fam if not ctx.quick else [fam[rng.randrange(len(fam))], fam[rng.randrange(len(fam))]]
+    for cfg in ('tandy', 'pcjr'):
+        hists += [(cfg, list(h)) for h in pick]
+    hists += [('vga', gen_history(rng, ctx.quick, 'vga')) for _ in range(n)]
+    for cfg in ('tandy', 'pcjr'):
+        hists += [(cfg, gen_history(rng, ctx.quick, cfg)) for _ in range(nt)]
     all_steps = []
     first_fail = {}
-    for k, h in enumerate(hists):
-        steps, failed = run_history(ctx, h)
+    for k, (cfg, h) in enumerate(hists):
+        steps, failed = run_history(ctx, h, cfg=cfg)
         all_steps.append(steps)
         ctx.count('histories')
+        ctx.count('histories:' + cfg)
         for key in failed:
-            first_fail.setdefault(key, h)
+            first_fail.setdefault(key, (cfg, h))
         if k < 3:
-            ctx.sample({'ops': [op_word(o) for o in h], 'last_step': steps[-1][:200] if steps else ''})
+            ctx.sample({'cfg': cfg, 'ops': [op_word(o) for o in h], 'last_step': steps[-1][:200] if steps else ''})
         if (k + 1) % 50 == 0:
             ctx.log('%d histories' % (k + 1))
     for i in range(0, len(hists), 200):
         compare_histories(ctx, hists[i:i + 200], all_steps[i:i + 200])
     # shrink one witness per failing key (at most 4 keys), and put it first for the report
-    for key, h in list(first_fail.items())[:4]:
+    for key, (cfg, h) in list(first_fail.items())[:4]:
         f = [x for x in ctx.failures if x['key'] == key][0]
-        small = minimise(ctx, [tuple(o) for o in f['case']['ops']], key)
+        small = minimise(ctx, [tuple(o) for o in f['case']['ops']], key, cfg=cfg)
         if len(small) < len(f['case']['ops']):
             sub = QuietCtx(ctx)
-            run_history(sub, small, compare=False)
+            run_history(sub, small, compare=False, cfg=cfg)
             hit = [x for x in sub.failures if x['key'] == key]
             if hit:
                 f['case'], f['what'] = hit[0]['case'], hit[0]['what'] + ' (minimised)'
@@ -779,6 +970,6 @@ def replay(ctx, payload):
         return None
     hist = [tuple(o) for o in case['ops']]
     sub = QuietCtx(ctx)
-    steps, failed = run_history(sub, hist, compare=False)
+    steps, failed = run_history(sub, hist, compare=False, cfg=case.get('cfg', 'vga'))
     hits = [f for f in sub.failures if f['key'] == payload.get('key')]
     return hits[0]['what'] if hits else None
